@@ -19,10 +19,15 @@
    prophecy of the calls the threads will make); CX_compose turns a
    linearization of the map calls into a run of the atomic-map machine of Conc.v
    with the same cache-level history; C02_cache_linearizable concludes.
-   Remaining scope limits: the snapshot of Range that feeds DeleteExpired is one
-   product step with an arbitrary answer (as in Conc.v), i.e. Range's own bucket
-   locking is not interleaved at this level (it is in C03 / C07); Count is not a
-   linearizable call.
+   C02_cache_over_mapof_range / C02_cache_over_map_range (CX_product2.v,
+   CX_mapof2.v, CX_map2.v): the same with the traversal of DeleteExpired run ON
+   THE MACHINE -- the product thread pushes the machine's Range, whose bucket
+   locking is interleaved with everybody else's steps, and continues with
+   exactly the pairs it visited (uses C04_linearizable_any_calls /
+   C03_linearizable_with_range).
+   Remaining scope limits: Count is not a linearizable call (Conc.v answers it
+   atomically; it blocks in the product); clock and settings constant during a
+   concurrent phase; initial state the empty cache.
    C02_cacheof_linearizable, C02_cacheof_over_mapof, C02_cacheof_over_map
    (proofs/C02_methods_of.v, C02_lin_gen.v, C02_lin_of.v, CX_cacheof.v): the same
    for the twin text CacheOfModel (xsync_mapof.go): every method body of the twin
@@ -33,7 +38,7 @@ From CacheV Require Import Base SpecMap Client CacheModel Ops SpecTTL Lin Conc.
 From CacheV.proofs Require Import C01_sim C01_hist C02_good C02_methods C02_lin.
 From CacheV Require XMachine XMachineS.
 
-From CacheV.proofs Require X_lin XS_resize CX_trans CX_compose CX_product CX_mapof CX_map C02_methods_of C02_lin_gen C02_lin_of CX_cacheof.
+From CacheV.proofs Require X_lin XS_resize CX_trans CX_compose CX_product CX_mapof CX_map C02_methods_of C02_lin_gen C02_lin_of CX_cacheof CX_product2 CX_mapof2 CX_map2.
 From Coq Require Import NArith.
 
 Theorem C02_cache_linearizable :
@@ -119,3 +124,34 @@ Print Assumptions C02_cacheof_over_map.
 
 Definition C02_twin_run_nonvacuous := C02_lin_of.twin_run_same.
 Print Assumptions C02_twin_run_nonvacuous.
+
+(* ---------------- with the traversal of DeleteExpired run on the machine ---------------- *)
+
+Theorem C02_cache_over_mapof_range :
+  forall (K V : Type) (eqd : forall a b : K, {a = b} + {a <> b}) (zero : V) (NOW DFLT : Z) (CB : cbid)
+         hash idx tag nslots seeds g sh probe nstripes minlen grow_only,
+    X_lin.xhyps4 idx nstripes minlen nslots probe -> forall len0 (todo : nat -> list (cop K V)) sched, (0 < len0)%nat ->
+    (forall t, Forall conc_ok (todo t)) ->
+    linearizable _ _ _ (tspec eqd zero) (mk NOW DFLT CB [])
+      (CX_mapof2.cx2hist eqd hash idx tag nslots seeds g sh probe nstripes minlen grow_only len0
+               (prog_cache eqd zero) NOW DFLT CB todo sched).
+Proof. intros. apply CX_mapof2.cache_over_xmachine_linearizable2; assumption. Qed.
+Print Assumptions C02_cache_over_mapof_range.
+
+Theorem C02_cache_over_map_range :
+  forall (K V : Type) (eqd : forall a b : K, {a = b} + {a <> b}) (zero : V) (NOW DFLT : Z) (CB : cbid)
+         hash idx tophash nslots seeds g sh nstripes minlen grow_only,
+    @XS_resize.rhyps K hash idx tophash nslots minlen -> forall len0 (todo : nat -> list (cop K V)) sched, (0 < len0)%nat ->
+    (forall t, Forall conc_ok (todo t)) ->
+    linearizable _ _ _ (tspec eqd zero) (mk NOW DFLT CB [])
+      (CX_map2.cs2hist eqd hash idx tophash nslots seeds g sh nstripes minlen grow_only len0
+               (prog_cache eqd zero) NOW DFLT CB todo sched).
+Proof. intros. apply CX_map2.cache_over_smachine_linearizable2; assumption. Qed.
+Print Assumptions C02_cache_over_map_range.
+
+(* a DeleteExpired whose traversal has visited an expired entry overlaps a Set of the same key; the re-check under
+   the bucket lock (the repair of finding F3) keeps the fresh entry; with an explicit linearization *)
+Definition C02_delete_expired_overlaps_set := CX_mapof2.delete_expired_overlaps_set.
+Definition C02_delete_expired_overlaps_set_map := CX_map2.delete_expired_overlaps_set_map.
+Print Assumptions C02_delete_expired_overlaps_set.
+Print Assumptions C02_delete_expired_overlaps_set_map.
